@@ -426,6 +426,6 @@ func TestCheck(t *testing.T) {
 			"'not the current leader' is judged only for stores whose peer is a non-leader before and after the call; for a deposed leader that still believes it leads, the outcome is judged by linearizability",
 			"ReadCommand's 3 s context runs on the virtual clock; a read without result is no observation",
 		}}
-	pbt.Add(s, &pbt.Spec[Case]{Name: "script", Gen: gen, Run: run, Quick: 2000, Thorough: 30000, Shards: 8})
+	pbt.Add(s, &pbt.Spec[Case]{Name: "script", Gen: gen, Run: run, Quick: 1500, Thorough: 30000, Shards: 8})
 	s.Main(t)
 }
